@@ -66,6 +66,15 @@ pub mod std {
 
         use crate::rt::{self, Kind};
 
+        /// `catch_unwind` of the simulated program: the payload with which the scheduler ends a
+        /// simulated process is not a panic of the program and passes through
+        pub fn catch_unwind<F: FnOnce() -> R + UnwindSafe, R>(f: F) -> ::std::thread::Result<R> {
+            match ::std::panic::catch_unwind(f) {
+                Err(p) if p.is::<crate::sched::StopRun>() => ::std::panic::resume_unwind(p),
+                r => r,
+            }
+        }
+
         /// Simulated process-global hook slot.
         pub fn set_hook(hook: Box<dyn Fn(&PanicHookInfo<'_>) + Sync + Send + 'static>) {
             if !rt::in_run() {
@@ -75,7 +84,8 @@ pub mod std {
             // the hook slot is a process-global lock in std: other threads may run between two
             // operations on it (never while panicking: no switch inside a hook)
             if !::std::thread::panicking() {
-                ::shuttle::thread::yield_now();
+                // a plain scheduling point (not a yield: the caller may well be chosen again)
+                ::shuttle::thread::sleep(::std::time::Duration::ZERO);
             }
             rt::log(Kind::HookSet, 0, 0);
             rt::with(|st| {
@@ -89,7 +99,8 @@ pub mod std {
                 return ::std::panic::take_hook();
             }
             if !::std::thread::panicking() {
-                ::shuttle::thread::yield_now();
+                // a plain scheduling point (not a yield: the caller may well be chosen again)
+                ::shuttle::thread::sleep(::std::time::Duration::ZERO);
             }
             match rt::with(|st| st.hook.take()) {
                 Some(h) => h,
@@ -244,6 +255,14 @@ pub mod std {
                 let (t, cell) = Thread::not_started(name);
                 b.spawn(body(idx, cell, f)).map(|h| JoinHandle(h, t))
             }
+        }
+
+        /// the environment of the simulated process decides (CPU affinity, cgroup quota)
+        pub fn available_parallelism() -> ::std::io::Result<::std::num::NonZeroUsize> {
+            if !rt::in_run() {
+                return ::std::thread::available_parallelism();
+            }
+            Ok(::std::num::NonZeroUsize::new(rt::with(|st| st.cpus as usize).max(1)).unwrap())
         }
 
         pub fn sleep(dur: Duration) {
